@@ -123,6 +123,7 @@ type Exec struct {
 	feltNegOf        map[int]*Term
 	guardLitCache    map[int]map[int]bool
 	guardDecideCache map[[2]int]int
+	guardDecideSecs  float64
 	dmSrc            map[int]dmSource
 	modSrc           map[int]*Term // remainder constant -> the term it is the residue of
 	limbBuf          map[string]map[int]*big.Int
